@@ -12,14 +12,13 @@ LEVEL = "other"
 def run(ctx, res):
     res.rules_run += ["C15.dispatch (Value::unordered_eq pairs equal variants only: scalars with ==, arrays and objects with their unordered_eq, mixed variants false)",
                       "C15.vec (Vec::unordered_eq requires equal lengths and compares elements with unordered_eq)",
-                      "C15.object (Object::unordered_eq: length check; containment checked with unordered_eq on values in both directions; the backward pass is guarded by duplicate keys of *self*)",
                       "C15.redundant (Indexes::is_redundant <=> more than one position)",
                       "C15.wrapper (Unordered<T>: PartialEq delegates to unordered_eq)"]
     dispatch_rule(ctx, res)
     vec_rule(ctx, res)
-    object_rule(ctx, res)
     redundant_rule(ctx, res)
-    res.notes.append("not decided: that the containment procedure is a one-to-one matching of duplicate keys (it is not: {k:1,k:1,k:2} ~ {k:1,k:2,k:2}); no sound structural criterion is in reach")
+    match_rule(ctx, res)
+    res.notes.append("C15.match replaces the structural rule C15.object of earlier revisions (two containment passes, duplicate guard): the procedure is now interpreted on every small configuration, which is both stronger and independent of how the matching is written")
 
 
 def dispatch_rule(ctx, res):
@@ -37,7 +36,7 @@ def dispatch_rule(ctx, res):
             sh = shape.Shape(P)
             sh.cut(r"^<std::vec::Vec<json_syntax::Value> as json_syntax::UnorderedPartialEq>::unordered_eq$", "vec_ueq", ret=lambda it, st, c, a_: Top(None, "R"))
             sh.cut(r"^<json_syntax::Object as json_syntax::UnorderedPartialEq>::unordered_eq$", "obj_ueq", ret=lambda it, st, c, a_: Top(None, "R"))
-            sh.cut(r"as std::cmp::PartialEq.*>::eq$", "eq", ret=lambda it, st, c, a_: Top(None, "R"))
+            sh.cut(r"as std::cmp::PartialEq.*>::eq$|^(std|alloc)::vec::partial_eq::<impl .*>::eq$|^(std|core)::slice::cmp::<impl .*PartialEq.*>::eq$", "eq", ret=lambda it, st, c, a_: Top(None, "R"))
             pa = [Top(f["ty"], "a") for f in vt["variants"][i]["fields"]]
             pb = [Top(f["ty"], "b") for f in vt["variants"][j]["fields"]]
             ra, rb = sh.cell(Agg(vt["id"], i, pa)), sh.cell(Agg(vt["id"], j, pb))
@@ -123,43 +122,6 @@ def vec_rule(ctx, res):
     res.ob(len(zips) == 1, rule, rule + "/zip", "Vec::unordered_eq does not pair elements position-wise (zip)")
 
 
-def object_rule(ctx, res):
-    P = ctx.P
-    rule = "C15.object"
-    try:
-        inst = shape.find_inst(P, r"^<json_syntax::Object as json_syntax::UnorderedPartialEq>::unordered_eq$")
-    except Undecided as e:
-        res.violation(rule, rule + "/missing", str(e))
-        return
-    # (i) duplicate-key guard on self
-    dup = calls_in(P, inst, r"IndexMap::contains_duplicate_keys$")
-    ok = len(dup) == 1
-    org = static.origin(inst, dup[0][2]["args"][0]) if ok else None
-    res.ob(ok and org[0] == "param" and org[1] == 1 and org[2][-1:] == ["indexes"], rule, rule + "/dup-guard",
-           "the backward containment pass must be guarded by duplicate keys of `self` (the left operand): the guard is evaluated on %r" % (org,),
-           sample={"duplicate_guard_on": "self.indexes"})
-    # (ii) length comparison of both entry lists
-    lens = calls_in(P, inst, r"^std::vec::Vec::<json_syntax::object::Entry<.*>>::len$")
-    origins = sorted(static.origin(inst, t["args"][0])[1:] for _, _, t in lens if static.origin(inst, t["args"][0])[0] == "param")
-    res.ob([o[0] for o in origins] == [1, 2] and all(o[1][-1:] == ["entries"] for o in origins), rule, rule + "/len",
-           "Object::unordered_eq does not compare the number of entries of both operands (%r)" % (origins,), sample={"len_of": "self.entries and other.entries"})
-    # (iii) two `all` passes whose closures look the entry up in the *other* operand and compare values with unordered_eq
-    cl = closures_of(P, inst)
-    outer = [c for c in cl if calls_in(P, c, r"^json_syntax::Object::get_entries::<")]
-    inner = [c for c in cl if calls_in(P, c, r"^<json_syntax::Value as json_syntax::UnorderedPartialEq>::unordered_eq$")]
-    inner_eq = [c for c in cl if calls_in(P, c, r"^<json_syntax::Value as std::cmp::PartialEq>::eq$")]
-    res.ob(len(outer) == 2, rule, rule + "/passes", "expected two containment passes (forward and backward), found %d closures looking entries up by key" % len(outer),
-           sample={"containment_passes": len(outer)})
-    res.ob(len(inner) == 2 and not inner_eq, rule, rule + "/values", "nested values are not compared with unordered_eq in both passes (unordered_eq: %d closures, ==: %d)" % (len(inner), len(inner_eq)),
-           sample={"values_compared_with": "unordered_eq"})
-    # which operand each pass iterates / looks up: closure environments capture the looked-up object
-    alls = calls_in(P, inst, r"as std::iter::Iterator>::all::<")
-    res.ob(len(alls) == 2, rule, rule + "/all", "expected two `all` passes, found %d" % len(alls))
-    iters = calls_in(P, inst, r"^json_syntax::Object::iter$")
-    its = sorted(static.origin(inst, t["args"][0])[1] for _, _, t in iters if static.origin(inst, t["args"][0])[0] == "param")
-    res.ob(its == [1, 2], rule, rule + "/directions", "the two passes must iterate `self` and `other` respectively (iterate parameters %r)" % (its,), sample={"passes_iterate": "self, other"})
-
-
 def redundant_rule(ctx, res):
     P = ctx.P
     rule = "C15.redundant"
@@ -188,3 +150,172 @@ def redundant_rule(ctx, res):
         res.ob(len(c) == 1, rule, rule + "/scan", "contains_duplicate_keys does not test every bucket with is_redundant")
     except Undecided as e:
         res.violation(rule, rule + "/missing2", str(e))
+
+
+# ---- C15.match: the decision procedure itself, on every small configuration ------------------------------------------
+def small_objects(max_len, keys, vals):
+    out = [()]
+    import itertools
+    ents = [(k, v) for k in keys for v in vals]
+    for n in range(1, max_len + 1):
+        out.extend(itertools.product(ents, repeat=n))
+    return out
+
+
+def canonical(a, b):
+    """Rename keys and values by order of first appearance over a + b (the procedure only compares them for equality)."""
+    km, vm = {}, {}
+    out = []
+    for seq in (a, b):
+        r = []
+        for k, v in seq:
+            r.append((km.setdefault(k, len(km)), vm.setdefault(v, len(vm))))
+        out.append(tuple(r))
+    return tuple(out)
+
+
+def match_rule(ctx, res):
+    """Object::unordered_eq is interpreted exactly (hash lookup replaced by the positions of the key in the abstract
+    object, nested value comparison by equality of abstract value tokens) on every pair of objects of equal length up to
+    L entries over two keys and two values (up to renaming), and its verdict compared with equality of the multisets of
+    (key, value) pairs.  Pairs of different length are covered by the length rule."""
+    import collections
+    P = ctx.P
+    rule = "C15.match"
+    res.rules_run.append("C15.match (Object::unordered_eq interpreted on every pair of small abstract objects — up to 3 entries (4 in the thorough tier) over two keys and two value tokens, up to renaming — must return multiset equality of the entries)")
+    try:
+        inst = shape.find_inst(P, r"^<json_syntax::Object as json_syntax::UnorderedPartialEq>::unordered_eq$")
+    except Undecided as e:
+        res.violation(rule, rule + "/missing", str(e))
+        return
+    oty = P.types[inst["locals"][1]]["to"]
+    fld = {f["name"]: f["ty"] for f in P.types[oty]["variants"][0]["fields"]}
+    et = [t for t in P.types if t.get("name") == "json_syntax::object::Entry" and t["k"] == "adt" and t["s"] == "json_syntax::object::Entry<smallstr::string::SmallString<[u8; 16]>>"]
+    if len(et) != 1 or "entries" not in fld or "indexes" not in fld:
+        res.violation(rule, rule + "/anchors", "Object { entries, indexes } / Entry not found as expected (anchor lost)")
+        return
+    ety = et[0]["id"]
+    L = 4 if ctx.tier == "thorough" else 3
+    seen = set()
+    pairs = []
+    objs = small_objects(L, ("k", "m"), (1, 2))
+    by_len = collections.defaultdict(list)
+    for o in objs:
+        by_len[len(o)].append(o)
+    for n, group in by_len.items():
+        for a in group:
+            for b in group:
+                c = canonical(a, b)
+                if c not in seen:
+                    seen.add(c)
+                    pairs.append(c)
+    # objects of different length are never equal (one entry more on either side, lengths up to 2 / 3)
+    for n in range(0, L - 1):
+        for a in by_len[n]:
+            for b in by_len[n + 1]:
+                for c in (canonical(a, b), canonical(b, a)):
+                    if c not in seen:
+                        seen.add(c)
+                        pairs.append(c)
+    wrong = {}
+    n_eq = n_ne = 0
+    for a, b in pairs:
+        try:
+            got = interpret_pair(P, inst, oty, fld, ety, a, b)
+        except Undecided as e:
+            res.violation(rule, rule + "/undecided", "undecided while interpreting Object::unordered_eq on %s ~ %s: %s" % (show(a), show(b), e), site=P.loc(inst["id"]))
+            return
+        want = int(collections.Counter(a) == collections.Counter(b))
+        n_eq += want
+        n_ne += 1 - want
+        if got != want:
+            kind = "accepts-different-multisets" if got == 1 else "rejects-a-permutation"
+            dup = "duplicate-keys" if (len(set(k for k, _ in a)) < len(a) or len(set(k for k, _ in b)) < len(b)) else "unique-keys"
+            wrong.setdefault((kind, dup), []).append((a, b))
+    res.count("C15.match configurations", len(pairs))
+    res.count("C15.match permutation pairs", n_eq)
+    res.count("C15.match non-permutation pairs", n_ne)
+    res.floor(rule, "C15.match configurations", 300)
+    for (kind, dup), ex in sorted(wrong.items()):
+        a, b = min(ex, key=lambda p: (len(p[0]), p))
+        res.violation(rule, "%s/%s/%s" % (rule, kind, dup),
+                      "Object::unordered_eq %s: %d of the %d small configurations, e.g. %s ~ %s returns %s" % (
+                          "holds for objects whose entries are not a permutation of each other" if kind.startswith("accepts") else "fails for two permutations of the same entries",
+                          len(ex), len(pairs), show(a), show(b), "true" if kind.startswith("accepts") else "false"), site=P.loc(inst["id"]))
+    if not wrong:
+        res.ob(True, rule, rule + "/all", "", sample={"configurations": len(pairs), "verdict": "unordered_eq = multiset equality on all of them"})
+
+
+def show(o):
+    return "{" + ", ".join("%s:%s" % ("km"[k] if isinstance(k, int) else k, v + 1 if isinstance(v, int) else v) for k, v in o) + "}"
+
+
+def interpret_pair(P, inst, oty, fld, ety, A, B):
+    from ..summ import AVec as _AVec
+    sh = shape.Shape(P)
+    objs = {}
+
+    def mk(name, ents):
+        items = tuple(Agg(ety, 0, (Top(None, ("key", k)), Top(None, ("val", v)))) for k, v in ents)
+        vec = sh.st.new_obj(_AVec(items, "entries"))
+        objs[name] = ents
+        return sh.cell(Agg(oty, 0, (vec, Top(fld["indexes"], ("idx", name)))))
+
+    a, b = mk("A", A), mk("B", B)
+
+    def which(it, st, v):
+        idx = shape.deref(it, st, v, 3)
+        if not (isinstance(idx, Top) and isinstance(idx.tag, tuple) and idx.tag[0] == "idx"):
+            raise Undecided("index map of an unknown object: %r" % (idx,))
+        return idx.tag[1]
+
+    def im_get(it, st, c, args):
+        name = which(it, st, args[0])
+        key = shape.deref(it, st, args[2], 4)
+        if not (isinstance(key, Top) and isinstance(key.tag, tuple) and key.tag[0] == "key"):
+            raise Undecided("lookup of something that is not an entry's key: %r" % (key,))
+        # the entries slice handed to the index map must be the object's own
+        pos = [i for i, (kk, _) in enumerate(objs[name]) if kk == key.tag[1]]
+        rt = shape.ret_ty(it, c)
+        if not pos:
+            return Agg(rt, 0, ())
+        ity = P.types[P.types[rt]["variants"][1]["fields"][0]["ty"]]["to"]
+        other = st.new_obj(_AVec(tuple(Conc(p) for p in pos[1:]), "other"))
+        cell = st.new_obj(Agg(ity, 0, (Conc(pos[0]), other)))
+        return Agg(rt, 1, (Ref(("H", cell.id), ()),))
+
+    sh.cut(r"^json_syntax::object::index_map::IndexMap::get::<", "im_get", ret=im_get)
+
+    def dup(it, st, c, args):
+        ks = [k for k, _ in objs[which(it, st, args[0])]]
+        return Conc(int(len(set(ks)) != len(ks)))
+
+    sh.cut(r"IndexMap::contains_duplicate_keys$", "dup", ret=dup)
+
+    def ueq(it, st, c, args):
+        x, y = shape.deref(it, st, args[0], 4), shape.deref(it, st, args[1], 4)
+        if not all(isinstance(v, Top) and isinstance(v.tag, tuple) and v.tag[0] == "val" for v in (x, y)):
+            raise Undecided("nested comparison of something that is not an entry's value: %r ~ %r" % (x, y))
+        return Conc(int(x.tag == y.tag))
+
+    sh.cut(r"^<json_syntax::Value as json_syntax::UnorderedPartialEq>::unordered_eq$", "ueq", ret=ueq)
+
+    def ordered_eq(it, st, c, args):
+        raise Undecided("nested values are compared with == (PartialEq), which is sensitive to the order of nested object entries")
+
+    sh.cut(r"^<json_syntax::Value as std::cmp::PartialEq>::eq$", "eq", ret=ordered_eq)
+
+    def from_elem(it, st, c, args):
+        n = args[1]
+        if not isinstance(n, Conc):
+            raise Undecided("vec![x; n] with unknown n: %r" % (n,))
+        return st.new_obj(_AVec(tuple(args[0] for _ in range(n.v)), "flags"))
+
+    sh.cut(r"^std::vec::from_elem::<", "from_elem", ret=from_elem)
+    outs = sh.run(inst, [a, b])
+    rets = [o for o in outs if o.outcome and o.outcome[0] == "return"]
+    if len(outs) != 1 or len(rets) != 1 or not isinstance(rets[0].outcome[1], Conc):
+        raise Undecided("%d paths / result %r" % (len(outs), [o.outcome for o in outs][:3]))
+    if sh.unknown():
+        raise Undecided("unknown callees %s" % sh.unknown()[:3])
+    return rets[0].outcome[1].v
